@@ -25,24 +25,29 @@ RULE = ('(a) isolated pipeline: the real LuaFormatterWriter._get_code_for_spaces
         'of all kinds, trailing comments; each program x 4 (thorough 8) random re-indentations (leading/trailing spaces and '
         'tabs on every line) x width 0-8: real `luafmt` on every layout and on its own output; every real '
         '_get_code_for_spaces call made during those runs is compared with the model (instrumented subclass); the extracted '
-        'holds_C10 is evaluated on (width, layout 1, layout k, out 1, out k, luafmt(out 1)).  One evaluation = one pipeline '
+        'holds_C10 is evaluated on (width, layout 1, layout k, out 1, out k, luafmt(out 1)); (c) 12 (thorough 120) programs go through '
+        'the command line: a cart is written, `p8tool luafmt --indentwidth w cart.p8` run in-process, the code of cart_fmt.p8 must equal '
+        'the direct formatter output and satisfy holds_C10; (d) a sample of 150 (600) pipeline calls is re-evaluated inside Coq by '
+        'vm_compute on the model itself (cross-check of extraction and glue).  One evaluation = one pipeline '
         'call compared, or one holds_C10 evaluation; distinct+non-trivial = distinct runs that contain a line break or a '
         'comment + distinct (program, layout pair) observations inside the domain of holds_C10')
 PARTIAL = ('whole-writer theorems (C10_indent, C10_reindent_invariant, C10_idempotent at program level) need the '
            'LuaASTEchoWriter walk (Model/AstWriter.v, worker parser): until then they are observed by the monitor on real '
-           'luafmt output, not proved; proved and unbounded: every run-level statement about the white-space pipeline')
+           'luafmt output, not proved; proved and unbounded: every run-level statement about the white-space pipeline, and the '
+           'whole-output clauses relative to an abstract chunk list (C10_*_partial)')
 ASSUMPTIONS = ['indentwidth is an integer (0-8 in the monitor domain); programs are those on which luafmt succeeds (C09 covers success)',
                'interior lines of multi-line block comments and long strings are token content, not layout: re-indentations leave them alone',
                'blank lines before the first line of the file are not "separating lines" (the output may start with up to two)']
 CLAIM = dict(
-    text=("Eight theorems in Properties/C10.v (Coq, closed under the global context) about fmt_run, the model of the 14-step re.sub "
+    text=("Twelve theorems in Properties/C10.v (Coq, closed under the global context) about fmt_run, the model of the 14-step re.sub "
           "pipeline of LuaFormatterWriter._get_code_for_spaces, for white-space/comment runs of EVERY length, every indent width and "
           "depth, at the start / middle / end of the file: C10_run_canonical_form (exact line-by-line form of the output), "
           "C10_run_depends_on_norm (runs equal modulo blanks at line edges are formatted identically: re-indentation invariance "
           "of a run), C10_run_indent (the token after the run sits at exactly indentwidth x depth spaces), "
           "C10_run_no_trailing_blank, C10_run_blank_lines (never three line feeds in a row), C10_run_end_of_file, "
-          "C10_run_keeps_comment_text (only white space moves), C10_run_idempotent_partial (formatting a formatted run changes "
-          "nothing, for runs followed by a token). Regex sources, guards, replacement expressions, order, and the whole function text "
+          "C10_run_keeps_comment_text (only white space moves), C10_run_idempotent (formatting a formatted run changes "
+          "nothing); and four theorems about the whole output as a list of writer chunks (C10_indent_partial, C10_first_line_partial, "
+          "C10_shape_partial, C10_reindent_partial) that reduce the whole-program clauses to facts about the writer walk. Regex sources, guards, replacement expressions, order, and the whole function text "
           "are regenerated from lua.py on every run and pinned. Tie: the extracted model equals the real method on ALL runs of length "
           "<= 5 (thorough 6) over {space,tab,\\n,\\r,-,/,a} x 4 positions x 3 (width,depth), on random long runs, and on every "
           "_get_code_for_spaces call made inside real luafmt runs on generated programs; the extracted holds_C10 (reference reader "
@@ -51,7 +56,8 @@ CLAIM = dict(
           "double blank line, no blank line at the end."),
     note=("PARTIAL: the whole-program clauses (indentation = width x syntactic depth, re-indentation invariance and idempotence "
           "of whole programs) are OBSERVED by the extracted monitor on real output, not proved: they need the model of the "
-          "LuaASTEchoWriter walk (worker parser); run-level idempotence is proved except for the run that ends the file. Two genuine "
+          "LuaASTEchoWriter walk (worker parser): that luafmt's output is a separated chunk list whose indents equal the syntactic "
+          "depth; given that, C10_indent_partial / C10_shape_partial / C10_reindent_partial give the clauses. Two genuine "
           "defects found by this check were fixed in picotool (fix: commits, findings/known_C10.json): white-space-only line / "
           "non-idempotence after an empty line inside a block; `//` comment lines kept their input indentation. Trusted: Coq "
           "kernel+VM, the hand-written regex scanners (pinned to the regenerated sources; compared exhaustively with Python re on "
@@ -232,6 +238,18 @@ def prog_case(rng, tier, extended, nlay):
             'features': sorted(p.features) + (['extended-layout'] if extended else []) + (['crlf'] if eol != b'\n' else [])}
 
 
+def nofinal_case(rng, tier):
+    p, lines = make_program(rng, tier, False)
+    while lines and lines[-1] == b'':
+        lines.pop()
+    body = render(lines[:-1], rng, 'none')
+    last = lines[-1] if lines else b'x=1'
+    srcs = [body + last, body + last + rng.choice([b' ', b'  ', b'\t', b' \t ']),
+            render(lines[:-1], rng, 'mixed') + _edge(rng, 'mixed') + last + b'   ']
+    return {'kind': 'prog', 'w': rng.choice(WIDTHS), 'srcs': [s.hex() for s in srcs],
+            'features': sorted(p.features) + ['no-final-newline']}
+
+
 # ------------------------------------------------------------------------------------ cases
 def _rand_run(rng):
     parts = []
@@ -265,6 +283,14 @@ def generate(tier, rng):
     nprog, nlay = (300, 4) if tier == 'quick' else (3000, 8)
     for i in range(nprog):
         yield prog_case(rng, tier, extended=(i % 4 == 3), nlay=nlay)
+    # files without a final newline (the AST writers raise IndexError on them before the S16 fix of worker parser:
+    # then these cases are outside, C09): layout 0 ends right after its last byte, layout 1 adds blanks there
+    for i in range(15 if tier == 'quick' else 150):
+        yield nofinal_case(rng, tier)
+    # the command line path: `p8tool luafmt --indentwidth w cart.p8` (argument parsing, cart read, .p8 write)
+    for i in range(12 if tier == 'quick' else 120):
+        c = prog_case(rng, tier, extended=(i % 3 == 2), nlay=1)
+        yield {'kind': 'cli', 'w': c['w'], 'srcs': c['srcs'], 'features': c['features'] + ['cli']}
 
 
 def corpus_cases():
@@ -352,6 +378,7 @@ def _recording_writer():
 
         class Rec(lua.LuaFormatterWriter):
             calls = None
+            link = None      # [(index of the token that follows a non-empty run, _indent passed with the run)]
 
             def _get_code_for_spaces(self, node):
                 start = self._pos
@@ -359,28 +386,116 @@ def _recording_writer():
                 run = b''.join(t.code for t in self._tokens[start:self._pos])
                 Rec.calls.add((start == 0, self._pos == len(self._tokens), self._indent_mult, self._indent,
                                bytes(run), bytes(res)))
+                if Rec.link is not None and self._pos > start and self._pos < len(self._tokens):
+                    Rec.link.append((self._pos, self._indent))
                 return res
         _REC['cls'] = Rec
     return _REC['cls']
 
 
-def luafmt(src, w, record=None):
-    """-> ('OK', bytes) | ('ERR', name)"""
+def _short_if_token_ranges(root):
+    """token index ranges [start_pos, end_pos) of the PICO-8 short-if statements of the implementation's tree"""
+    from pico8.lua import parser
+    out = []
+
+    def rec(v):
+        if isinstance(v, parser.Node):
+            if getattr(v, 'short_if', False):
+                out.append((v.start_pos, v.end_pos))
+            for f in v._fields:
+                rec(getattr(v, f))
+        elif isinstance(v, (list, tuple)):
+            for x in v:
+                rec(x)
+    rec(root)
+    return out
+
+
+def luafmt(src, w, record=None, link=None):
+    """-> ('OK', bytes) | ('ERR', name).  link: list that receives (byte offset in src of a code token that
+    follows a non-empty white-space run, the writer's _indent at that run)"""
     from pico8.lua import lua
     cls = lua.LuaFormatterWriter
     if record is not None:
         cls = _recording_writer()
         cls.calls = record
+        cls.link = [] if link is not None else None
     try:
         l = lua.Lua.from_lines([src], version=8)
-        return 'OK', b''.join(l.to_lines(writer_cls=cls, writer_args={'indentwidth': w}))
+        out = b''.join(l.to_lines(writer_cls=cls, writer_args={'indentwidth': w}))
+        if link is not None and record is not None:
+            starts = [0]
+            for k, ch in enumerate(src):
+                if ch == 10:
+                    starts.append(k + 1)
+            short = _short_if_token_ranges(l.root)
+            for idx, ind in cls.link:
+                t = l.tokens[idx]
+                if t._lineno is not None and t._lineno < len(starts):
+                    link.append((starts[t._lineno] + t._charno, ind, any(a <= idx < b for a, b in short)))
+        return 'OK', out
     except RecursionError:
         return 'ERR', 'RecursionError'
     except Exception as e:  # noqa
         return 'ERR', lib.exc_name(e)
 
 
+def run_cli(case):
+    """-> observation shaped like a 'prog' one: layout = the code as p8tool reads it from the cart, out 1 = code of
+    the cart written by `p8tool luafmt --indentwidth w`, out 2 = Lua.to_lines(LuaFormatterWriter) on the same code"""
+    from pico8 import tool
+    from pico8.game import file as gfile
+    from pico8.game import game as ggame
+    from pico8.lua import lua
+    w = case['w']
+    src = bytes.fromhex(case['srcs'][0])
+    d = os.path.join(lib.VERIF, 'work', 'c10_cli')
+    os.makedirs(d, exist_ok=True)
+    path = os.path.join(d, 'cart_%d.p8' % os.getpid())
+    outp = path[:-3] + '_fmt.p8'
+    for f in (path, outp):
+        if os.path.exists(f):
+            os.remove(f)
+    obs = {'outs': [('ERR', 'setup')], 'again': None, 'calls': set(), 'seen': None}
+    try:
+        g = ggame.Game.make_empty_game(filename=path)
+        g.lua = lua.Lua.from_lines([src], version=g.lua.version)
+        gfile.to_file(g, filename=path)
+        seen = b''.join(gfile.from_file(path).lua.to_lines())
+    except Exception as e:  # noqa  (cart not writable / readable: not C10's business)
+        obs['outs'] = [('ERR', 'cart-setup-' + lib.exc_name(e))]
+        return obs
+    obs['seen'] = seen
+    direct = luafmt(seen, w)
+    if direct[0] != 'OK':
+        obs['outs'] = [direct]
+        return obs
+    try:
+        rc = tool.main(['-q', 'luafmt', '--indentwidth', str(w), path])
+        if rc != 0 or not os.path.exists(outp):
+            cli = ('ERR', 'p8tool-exit-%s' % rc)
+        else:
+            cli = ('OK', b''.join(gfile.from_file(outp).lua.to_lines()))
+    except SystemExit as e:
+        cli = ('ERR', 'SystemExit-%s' % e.code)
+    except Exception as e:  # noqa
+        cli = ('ERR', lib.exc_name(e))
+    finally:
+        for f in (path, outp):
+            if os.path.exists(f):
+                os.remove(f)
+    obs['outs'] = [cli, direct]
+    if cli[0] == 'OK':
+        obs['again'] = luafmt(cli[1], w)
+    else:
+        obs['outs'] = [direct, cli]     # the direct call worked, the command line did not: reported as a difference
+        obs['again'] = luafmt(direct[1], w)
+    return obs
+
+
 def run_impl(case):
+    if case['kind'] == 'cli':
+        return run_cli(case)
     if case['kind'] in ('runs', 'runs-random'):
         rows = []
         for run in _runs_of(case):
@@ -392,8 +507,9 @@ def run_impl(case):
     w = case['w']
     srcs = [bytes.fromhex(h) for h in case['srcs']]
     calls = set()
-    outs = [luafmt(s, w, record=calls) for s in srcs]
-    obs = {'outs': outs, 'again': None, 'calls': calls}
+    link = []
+    outs = [luafmt(s, w, record=calls, link=(link if k == 0 else None)) for k, s in enumerate(srcs)]
+    obs = {'outs': outs, 'again': None, 'calls': calls, 'link': link}
     if outs[0][0] == 'OK':
         obs['again'] = luafmt(outs[0][1], w, record=calls)
     return obs
@@ -428,10 +544,12 @@ def compare(case, obs, answers):
 
 def monitor_requests(case, obs):
     """'code' requests; answers are verdict numbers (see Instances/HoldsC10.v)"""
-    if case['kind'] != 'prog' or obs['outs'][0][0] != 'OK':
+    if case['kind'] not in ('prog', 'cli') or obs['outs'][0][0] != 'OK':
         return []
     w = case['w']
     srcs = case['srcs']
+    if case['kind'] == 'cli':
+        srcs = [obs['seen'].hex()] * len(obs['outs'])
     o1 = _enc(obs['outs'][0])
     again = _enc(obs['again'])
     reqs = []
@@ -451,6 +569,12 @@ def signature_of(code, case, obs, k):
     """deterministic classifier of a violation"""
     names = clause_names(code)
     extra = ''
+    if names == ['reindent'] and obs['outs'][k][0] == 'OK' and obs['outs'][0][0] == 'OK':
+        a, b = obs['outs'][0][1], obs['outs'][k][1]
+        src0 = bytes.fromhex(case['srcs'][0])
+        if not src0.endswith((b'\n', b'\r')) and (b == a + b'\n' or a == b + b'\n'):
+            # the file has no final newline: luafmt writes one exactly when blanks follow the last token
+            return 'C10/reindent/final-newline-iff-trailing-blanks'
     if 'reindent' in names and obs['outs'][k][0] != 'OK':
         extra = '/raises-' + obs['outs'][k][1]
     elif 'idempotent' in names and obs['again'][0] != 'OK':
@@ -467,7 +591,7 @@ def describe(case, obs):
         return {'kind': 'runs', 'len': case['len'], 'prefix': case['prefix'], 'n': len(obs['rows'])}
     if case['kind'] == 'runs-random':
         return {'kind': 'runs-random', 'n': len(obs['rows']), 'first': case['runs'][:2]}
-    d = {'kind': 'prog', 'w': case['w'], 'features': case.get('features'),
+    d = {'kind': case['kind'], 'w': case['w'], 'features': case.get('features'),
          'src0': bytes.fromhex(case['srcs'][0]).decode('latin-1')[:400],
          'out0': (obs['outs'][0][1].decode('latin-1')[:400] if obs['outs'][0][0] == 'OK' else 'ERR ' + obs['outs'][0][1])}
     return d
@@ -562,6 +686,14 @@ def run_cases(cases, ctx):
             evaluations += b - a
             if d is not None:
                 disagreements.append({'case': c, 'summary': describe(c, o), 'difference': d})
+    # ---- a shard of the correspondence evaluated inside Coq (vm_compute on the model itself: cross-checks
+    #      the extraction and the OCaml glue)
+    if ctx.get('model_exe') and ctx.get('tier') in ('quick', 'thorough'):
+        d = coq_shard(cases, obs, 150 if ctx['tier'] == 'quick' else 600, ctx['seed'])
+        if d is not None:
+            disagreements.append({'case': None, 'summary': {'kind': 'in-coq-shard'}, 'difference': d})
+        else:
+            bump('in-coq-shard:ok')
     for c, o in zip(cases, obs):
         if c['kind'] in ('runs', 'runs-random'):
             bump('pipeline-calls:' + c['kind'], len(o['rows']))
@@ -585,7 +717,7 @@ def run_cases(cases, ctx):
             reqs.extend(r)
         ans = lib.run_driver_parallel(ctx['monitor_exe'], reqs)
         for c, o, (a, b) in zip(cases, obs, spans):
-            if c['kind'] != 'prog':
+            if c['kind'] not in ('prog', 'cli'):
                 continue
             if o['outs'][0][0] != 'OK':
                 bump('prog:outside (luafmt raised %s: C09)' % o['outs'][0][1])
@@ -609,7 +741,7 @@ def run_cases(cases, ctx):
                     bump('observation:no-claim(%d)' % code)
                     continue
                 bump('observation:in-domain')
-                nontrivial.add((c['srcs'][0], c['srcs'][k]))
+                nontrivial.add((c['kind'], c['srcs'][0], c['srcs'][min(k, len(c['srcs']) - 1)]))
                 if code > 0 and worst is None:
                     worst = (code, k)
             if worst is not None:
@@ -617,6 +749,32 @@ def run_cases(cases, ctx):
                 violations.append({'case': c, 'summary': describe(c, o), 'signature': signature_of(code, c, o, k),
                                    'what': what_of(code, c, o, k), '_k': k,
                                    'observed': ['verdict %d: %s' % (code, ', '.join(clause_names(code)))]})
+    # ---- the writer's _indent against the reference depth at every token that follows a run
+    if ctx.get('monitor_exe'):
+        reqs, owners = [], []
+        for c, o in zip(cases, obs):
+            if c['kind'] == 'prog' and o['outs'][0][0] == 'OK' and o.get('link'):
+                reqs.append('link %s %s' % (c['srcs'][0], ','.join('%d:%d' % (p[0], p[1]) for p in sorted(set(o['link'])))))
+                owners.append((c, o))
+        ans = lib.run_driver_parallel(ctx['monitor_exe'], reqs) if reqs else []
+        for (c, o), a in zip(owners, ans):
+            n = len(set(o['link']))
+            if a == 'NONE' or a.startswith('DRIVER'):
+                bump('link:no-claim')
+                continue
+            bad = [] if a == '-' else [int(x) for x in a.split(',')]
+            bump('link:tokens-compared', n)
+            bump('link:indent-equals-reference-depth', n - len(bad))
+            src = bytes.fromhex(c['srcs'][0])
+            in_short = {p[0] for p in o['link'] if p[2]}
+            for off in bad:
+                why = 'inside-a-short-if' if off in in_short else _classify_link_mismatch(src, off)
+                bump('link:mismatch:' + why)
+                if why.startswith('UNEXPLAINED') and not any(d.get('summary', {}).get('kind') == 'link' for d in disagreements):
+                    # the writer's depth bookkeeping deviates from the syntactic depth at a token, outside the two known
+                    # unobservable places: treated like a correspondence break (the search then looks for a layout that shows it)
+                    disagreements.append({'case': c, 'summary': {'kind': 'link', 'src': src.decode('latin-1')[:300]},
+                                          'difference': 'writer _indent differs from the reference depth at byte offset %d (%s)' % (off, why)})
     # minimise the smallest witness of each signature (at most 4 signatures, 12 s each)
     if violations and ctx.get('monitor_exe') and ctx.get('tier') != 'replay':
         best = {}
@@ -625,6 +783,8 @@ def run_cases(cases, ctx):
             if v['signature'] not in best or sz < best[v['signature']][0]:
                 best[v['signature']] = (sz, v)
         for sig, (_, v) in sorted(best.items())[:4]:
+            if v['case']['kind'] != 'prog':
+                continue
             try:
                 mc = minimize_prog(ctx, v['case'], v['_k'], sig, budget_s=12)
                 v['case'] = mc
@@ -638,6 +798,62 @@ def run_cases(cases, ctx):
             'disagreements': disagreements, 'violations': violations, 'histogram': hist,
             'impl_seconds': round(t_impl, 2),
             'exhaustive': any(c['kind'] == 'runs' for c in cases)}
+
+
+def _classify_link_mismatch(src, off):
+    """why the writer's _indent differs from the reference depth at the token at `off` (never a line start in
+    the layouts generated here, so not observable in the output)"""
+    import re
+    rest = src[off:off + 40]
+    rest = src[off:off + 200]
+    if re.match(rb'[,;]\s*(--\[\[.*?\]\]\s*|--[^\n]*\n\s*|//[^\n]*\n\s*)*\}', rest, re.S):
+        # _walk_TableConstructor decrements _indent before the trailing field separator
+        return 'trailing-field-separator'
+    return 'UNEXPLAINED at %r' % rest.split()[0][:8].decode('latin-1')
+
+
+def coq_shard(cases, obs, n, seed):
+    """write ocaml/build/C10_cases.v: `fmt_run cfg run = <what the implementation returned>` for a sample of
+    the pipeline calls (half from real luafmt runs, half from the isolated calls), proved by vm_compute.
+    -> None | description of the failure"""
+    import subprocess
+    rng = random.Random(seed + 11)
+    real, iso = [], []
+    for c, o in zip(cases, obs):
+        if c['kind'] == 'prog':
+            for (a, e, w, d, run, res) in sorted(o['calls']):
+                if len(run) <= 200:
+                    real.append((a, e, w, d, bytes(run), bytes(res)))
+        elif c['kind'] == 'runs-random' or (c['kind'] == 'runs' and c['len'] >= 4):
+            for r, x in o['rows']:
+                f = r.split(' ')
+                if f[0] == 'fmt':
+                    iso.append((f[1] == '1', f[2] == '1', int(f[3]), int(f[4]), lib.unhx(f[5]), lib.unhx(x)))
+    rows = (rng.sample(real, min(len(real), n // 2)) if real else []) + (rng.sample(iso, min(len(iso), n - n // 2)) if iso else [])
+    if not rows:
+        return None
+
+    def zl(b):
+        return '[' + '; '.join(str(x) for x in b) + ']'
+    body = ';\n  '.join('(%s, %s, %d, %d, %s, %s)' % ('true' if a else 'false', 'true' if e else 'false', w, d, zl(run), zl(res))
+                         for (a, e, w, d, run, res) in rows)
+    text = ('(* written by harness/props/c10.py; not committed *)\n'
+            'From PV Require Import Base.Prelude Model.FmtSpaces.\n'
+            'Definition c10_cases : list (bool * bool * Z * Z * list Z * list Z) :=\n  [%s].\n'
+            'Lemma c10_cases_agree : forallb (fun \'(a, e, w, d, r, x) => zlist_eqb (fmt_run (mk_fcfg a e w d) r) x) c10_cases = true.\n'
+            'Proof. vm_compute. reflexivity. Qed.\n' % body)
+    path = os.path.join(lib.BUILD, 'C10_cases.v')
+    with open(path, 'w') as fh:
+        fh.write(text)
+    try:
+        p = subprocess.run(['timeout', '600', 'coqc', '-Q', 'theories', 'PV', '-w', 'none', path], cwd=lib.ROCQ,
+                           capture_output=True, text=True, timeout=660)
+    except subprocess.TimeoutExpired:
+        return 'in-Coq shard timed out'
+    if p.returncode != 0:
+        return 'in-Coq evaluation (vm_compute) of fmt_run disagrees with the implementation on a sample of %d calls: %s' % (
+            len(rows), (p.stdout + p.stderr)[-400:])
+    return None
 
 
 def search(ctx, budget):
